@@ -1,0 +1,524 @@
+//! Simulation seams for deterministic simulation testing.
+//!
+//! Compiled only with `--cfg feoxdb_verif`. This module defines *mechanism* only:
+//! a `Controller` trait object that an external harness installs, plus drop-in shims
+//! for the blocking primitives the storage layer uses. With no controller installed
+//! every shim passes straight through to the primitive it wraps, so the crate behaves
+//! exactly as shipped.
+
+use std::fs::File;
+use std::io;
+use std::sync::Arc;
+use std::time::Duration;
+
+/// Everything the simulator decides. Implemented by the harness.
+pub trait Controller: Send + Sync + 'static {
+    /// The only wall clock (nanoseconds since the epoch).
+    fn now_nanos(&self) -> u64;
+    /// Named preemption point.
+    fn yield_point(&self, site: &'static str);
+    /// Park the calling thread until `ready()` holds or `timeout` elapses in virtual
+    /// time. Returns `true` when resumed because `ready()` held, `false` on timeout.
+    /// `ready` must be free of side effects: other threads evaluate it.
+    fn block_on(
+        &self,
+        site: &'static str,
+        ready: &dyn Fn() -> bool,
+        timeout: Option<Duration>,
+    ) -> bool;
+    /// Called in the parent before the OS thread is created.
+    fn thread_register(&self, name: &'static str) -> u64;
+    /// Called first thing in the child; returns once the child is scheduled.
+    fn thread_begin(&self, id: u64);
+    /// Called last thing in the child (`panicked` = the closure unwound).
+    fn thread_end(&self, id: u64, panicked: bool);
+    fn thread_finished(&self, id: u64) -> bool;
+    fn hash_seeds(&self, site: &'static str) -> [u64; 4];
+    fn cpus(&self, site: &'static str, real: usize) -> usize;
+    fn jitter(&self, site: &'static str, value: i64) -> i64;
+    fn rng_seed(&self, site: &'static str) -> u64;
+    /// Simulated device standing in for `file`, if the simulator owns it.
+    fn device_for(&self, file: &File) -> Option<Arc<dyn SimDevice>>;
+    /// Cooperative fault point: `true` makes the caller take its failure path.
+    fn fail_at(&self, site: &'static str) -> bool;
+    /// Observation only.
+    fn event(&self, kind: &'static str, a: u64, b: u64);
+}
+
+/// Block device as the store sees it (offsets and lengths in bytes).
+pub trait SimDevice: Send + Sync {
+    fn read(&self, offset: u64, len: usize) -> io::Result<Vec<u8>>;
+    fn write(&self, offset: u64, data: &[u8]) -> io::Result<()>;
+    fn fsync(&self) -> io::Result<()>;
+}
+
+static CONTROLLER: parking_lot::RwLock<Option<Arc<dyn Controller>>> =
+    parking_lot::RwLock::new(None);
+static INSTALLED: std::sync::atomic::AtomicBool = std::sync::atomic::AtomicBool::new(false);
+
+pub fn install(controller: Arc<dyn Controller>) {
+    *CONTROLLER.write() = Some(controller);
+    INSTALLED.store(true, std::sync::atomic::Ordering::SeqCst);
+}
+
+pub fn uninstall() {
+    INSTALLED.store(false, std::sync::atomic::Ordering::SeqCst);
+    *CONTROLLER.write() = None;
+}
+
+#[inline]
+pub fn controller() -> Option<Arc<dyn Controller>> {
+    if !INSTALLED.load(std::sync::atomic::Ordering::Relaxed) {
+        return None;
+    }
+    CONTROLLER.read().clone()
+}
+
+#[inline]
+pub fn now_nanos() -> Option<u64> {
+    controller().map(|c| c.now_nanos())
+}
+
+#[inline]
+pub fn now_secs() -> Option<u64> {
+    now_nanos().map(|n| n / 1_000_000_000)
+}
+
+#[inline]
+pub fn yield_point(site: &'static str) {
+    if let Some(c) = controller() {
+        c.yield_point(site);
+    }
+}
+
+#[inline]
+pub fn fail_at(site: &'static str) -> bool {
+    controller().is_some_and(|c| c.fail_at(site))
+}
+
+#[inline]
+pub fn event(kind: &'static str, a: u64, b: u64) {
+    if let Some(c) = controller() {
+        c.event(kind, a, b);
+    }
+}
+
+pub fn cpus(site: &'static str, real: usize) -> usize {
+    match controller() {
+        Some(c) => c.cpus(site, real),
+        None => real,
+    }
+}
+
+pub fn random_state(site: &'static str) -> ahash::RandomState {
+    match controller() {
+        Some(c) => {
+            let s = c.hash_seeds(site);
+            ahash::RandomState::with_seeds(s[0], s[1], s[2], s[3])
+        }
+        None => ahash::RandomState::new(),
+    }
+}
+
+pub fn jitter(site: &'static str, value: i64) -> i64 {
+    match controller() {
+        Some(c) => c.jitter(site, value),
+        None => value,
+    }
+}
+
+pub fn rng(site: &'static str) -> rand::rngs::StdRng {
+    use rand::SeedableRng;
+    match controller() {
+        Some(c) => rand::rngs::StdRng::seed_from_u64(c.rng_seed(site)),
+        None => rand::rngs::StdRng::from_os_rng(),
+    }
+}
+
+pub fn device_for(file: &File) -> Option<Arc<dyn SimDevice>> {
+    controller().and_then(|c| c.device_for(file))
+}
+
+pub(crate) fn io_error(error: io::Error) -> crate::error::FeoxError {
+    crate::error::FeoxError::IoError(error)
+}
+
+pub mod sync {
+    //! parking_lot-compatible locks whose blocking goes through the controller.
+    use super::controller;
+
+    pub use parking_lot::{MutexGuard, RwLockReadGuard, RwLockWriteGuard};
+
+    #[derive(Debug, Default)]
+    pub struct Mutex<T>(parking_lot::Mutex<T>);
+
+    impl<T> Mutex<T> {
+        pub const fn new(value: T) -> Self {
+            Self(parking_lot::Mutex::new(value))
+        }
+
+        pub fn lock(&self) -> MutexGuard<'_, T> {
+            let Some(c) = controller() else {
+                return self.0.lock();
+            };
+            c.yield_point("mutex.lock");
+            loop {
+                if let Some(guard) = self.0.try_lock() {
+                    return guard;
+                }
+                c.block_on("mutex.wait", &|| !self.0.is_locked(), None);
+            }
+        }
+
+        pub fn try_lock(&self) -> Option<MutexGuard<'_, T>> {
+            self.0.try_lock()
+        }
+
+        pub fn is_locked(&self) -> bool {
+            self.0.is_locked()
+        }
+
+        pub fn get_mut(&mut self) -> &mut T {
+            self.0.get_mut()
+        }
+
+        pub fn into_inner(self) -> T {
+            self.0.into_inner()
+        }
+    }
+
+    #[derive(Debug, Default)]
+    pub struct RwLock<T>(parking_lot::RwLock<T>);
+
+    impl<T> RwLock<T> {
+        pub const fn new(value: T) -> Self {
+            Self(parking_lot::RwLock::new(value))
+        }
+
+        pub fn read(&self) -> RwLockReadGuard<'_, T> {
+            let Some(c) = controller() else {
+                return self.0.read();
+            };
+            c.yield_point("rwlock.read");
+            loop {
+                if let Some(guard) = self.0.try_read() {
+                    return guard;
+                }
+                c.block_on("rwlock.read_wait", &|| !self.0.is_locked_exclusive(), None);
+            }
+        }
+
+        pub fn write(&self) -> RwLockWriteGuard<'_, T> {
+            let Some(c) = controller() else {
+                return self.0.write();
+            };
+            c.yield_point("rwlock.write");
+            loop {
+                if let Some(guard) = self.0.try_write() {
+                    return guard;
+                }
+                c.block_on("rwlock.write_wait", &|| !self.0.is_locked(), None);
+            }
+        }
+
+        pub fn try_read(&self) -> Option<RwLockReadGuard<'_, T>> {
+            self.0.try_read()
+        }
+
+        pub fn try_write(&self) -> Option<RwLockWriteGuard<'_, T>> {
+            self.0.try_write()
+        }
+
+        pub fn is_locked(&self) -> bool {
+            self.0.is_locked()
+        }
+
+        pub fn get_mut(&mut self) -> &mut T {
+            self.0.get_mut()
+        }
+    }
+}
+
+pub mod channel {
+    //! crossbeam-channel-compatible bounded channel whose blocking goes through
+    //! the controller.
+    use super::controller;
+    use crossbeam_channel as cb;
+    use std::sync::atomic::{AtomicUsize, Ordering};
+    use std::sync::Arc;
+    use std::time::Duration;
+
+    pub use cb::{RecvError, RecvTimeoutError, SendError, TryRecvError, TrySendError};
+
+    #[derive(Debug)]
+    struct Ends {
+        senders: AtomicUsize,
+        receivers: AtomicUsize,
+    }
+
+    #[derive(Debug)]
+    pub struct Sender<T> {
+        inner: cb::Sender<T>,
+        ends: Arc<Ends>,
+    }
+
+    #[derive(Debug)]
+    pub struct Receiver<T> {
+        inner: cb::Receiver<T>,
+        ends: Arc<Ends>,
+    }
+
+    pub fn bounded<T>(capacity: usize) -> (Sender<T>, Receiver<T>) {
+        let (tx, rx) = cb::bounded(capacity);
+        let ends = Arc::new(Ends {
+            senders: AtomicUsize::new(1),
+            receivers: AtomicUsize::new(1),
+        });
+        (
+            Sender {
+                inner: tx,
+                ends: Arc::clone(&ends),
+            },
+            Receiver { inner: rx, ends },
+        )
+    }
+
+    impl<T> Clone for Sender<T> {
+        fn clone(&self) -> Self {
+            self.ends.senders.fetch_add(1, Ordering::SeqCst);
+            Self {
+                inner: self.inner.clone(),
+                ends: Arc::clone(&self.ends),
+            }
+        }
+    }
+
+    impl<T> Drop for Sender<T> {
+        fn drop(&mut self) {
+            self.ends.senders.fetch_sub(1, Ordering::SeqCst);
+        }
+    }
+
+    impl<T> Drop for Receiver<T> {
+        fn drop(&mut self) {
+            self.ends.receivers.fetch_sub(1, Ordering::SeqCst);
+        }
+    }
+
+    impl<T: Send> Sender<T> {
+        pub fn send(&self, value: T) -> Result<(), SendError<T>> {
+            let Some(c) = controller() else {
+                return self.inner.send(value);
+            };
+            c.yield_point("chan.send");
+            let mut value = value;
+            loop {
+                match self.inner.try_send(value) {
+                    Ok(()) => return Ok(()),
+                    Err(TrySendError::Disconnected(v)) => return Err(SendError(v)),
+                    Err(TrySendError::Full(v)) => {
+                        value = v;
+                        let inner = &self.inner;
+                        let ends = &self.ends;
+                        c.block_on(
+                            "chan.send_wait",
+                            &|| !inner.is_full() || ends.receivers.load(Ordering::SeqCst) == 0,
+                            None,
+                        );
+                    }
+                }
+            }
+        }
+
+        pub fn try_send(&self, value: T) -> Result<(), TrySendError<T>> {
+            if let Some(c) = controller() {
+                c.yield_point("chan.try_send");
+                if c.fail_at("chan.try_send.full") {
+                    return Err(TrySendError::Full(value));
+                }
+            }
+            self.inner.try_send(value)
+        }
+    }
+
+    impl<T: Send> Receiver<T> {
+        pub fn recv(&self) -> Result<T, RecvError> {
+            let Some(c) = controller() else {
+                return self.inner.recv();
+            };
+            c.yield_point("chan.recv");
+            loop {
+                match self.inner.try_recv() {
+                    Ok(v) => return Ok(v),
+                    Err(TryRecvError::Disconnected) => return Err(RecvError),
+                    Err(TryRecvError::Empty) => {
+                        let inner = &self.inner;
+                        let ends = &self.ends;
+                        c.block_on(
+                            "chan.recv_wait",
+                            &|| !inner.is_empty() || ends.senders.load(Ordering::SeqCst) == 0,
+                            None,
+                        );
+                    }
+                }
+            }
+        }
+
+        pub fn recv_timeout(&self, timeout: Duration) -> Result<T, RecvTimeoutError> {
+            let Some(c) = controller() else {
+                return self.inner.recv_timeout(timeout);
+            };
+            c.yield_point("chan.recv_timeout");
+            let deadline = c.now_nanos().saturating_add(timeout.as_nanos() as u64);
+            loop {
+                match self.inner.try_recv() {
+                    Ok(v) => return Ok(v),
+                    Err(TryRecvError::Disconnected) => return Err(RecvTimeoutError::Disconnected),
+                    Err(TryRecvError::Empty) => {
+                        let now = c.now_nanos();
+                        if now >= deadline || c.fail_at("chan.recv_timeout.early") {
+                            return Err(RecvTimeoutError::Timeout);
+                        }
+                        let inner = &self.inner;
+                        let ends = &self.ends;
+                        let ready = c.block_on(
+                            "chan.recv_timeout_wait",
+                            &|| !inner.is_empty() || ends.senders.load(Ordering::SeqCst) == 0,
+                            Some(Duration::from_nanos(deadline - now)),
+                        );
+                        if !ready {
+                            return Err(RecvTimeoutError::Timeout);
+                        }
+                    }
+                }
+            }
+        }
+
+        pub fn try_recv(&self) -> Result<T, TryRecvError> {
+            self.inner.try_recv()
+        }
+    }
+}
+
+pub mod thread {
+    //! std::thread-compatible spawn/sleep/join under the controller.
+    use super::controller;
+    use std::sync::Arc;
+    use std::time::Duration;
+
+    pub use std::thread::{current, Thread, ThreadId};
+
+    thread_local! {
+        static NEXT_NAME: std::cell::Cell<&'static str> = const { std::cell::Cell::new("thread") };
+    }
+
+    /// Name given to the next thread spawned by this thread (observation only).
+    pub fn name_next_spawn(name: &'static str) {
+        NEXT_NAME.with(|n| n.set(name));
+    }
+
+    pub struct JoinHandle<T> {
+        inner: std::thread::JoinHandle<T>,
+        sim: Option<(Arc<dyn super::Controller>, u64)>,
+    }
+
+    impl<T> JoinHandle<T> {
+        pub fn join(self) -> std::thread::Result<T> {
+            if let Some((c, id)) = &self.sim {
+                if let Some(active) = controller() {
+                    if Arc::ptr_eq(c, &active) {
+                        active.yield_point("thread.join");
+                        while !c.thread_finished(*id) {
+                            let id = *id;
+                            active.block_on("thread.join_wait", &|| c.thread_finished(id), None);
+                        }
+                    }
+                }
+            }
+            self.inner.join()
+        }
+
+        pub fn thread(&self) -> &Thread {
+            self.inner.thread()
+        }
+
+        pub fn is_finished(&self) -> bool {
+            match &self.sim {
+                Some((c, id)) => c.thread_finished(*id),
+                None => self.inner.is_finished(),
+            }
+        }
+    }
+
+    pub fn spawn<F, T>(f: F) -> JoinHandle<T>
+    where
+        F: FnOnce() -> T + Send + 'static,
+        T: Send + 'static,
+    {
+        let Some(c) = controller() else {
+            return JoinHandle {
+                inner: std::thread::spawn(f),
+                sim: None,
+            };
+        };
+        let name = NEXT_NAME.with(|n| n.replace("thread"));
+        let id = c.thread_register(name);
+        let child = Arc::clone(&c);
+        let inner = std::thread::Builder::new()
+            .name(format!("sim-{name}-{id}"))
+            .spawn(move || {
+                child.thread_begin(id);
+                let result = std::panic::catch_unwind(std::panic::AssertUnwindSafe(f));
+                child.thread_end(id, result.is_err());
+                match result {
+                    Ok(value) => value,
+                    Err(payload) => std::panic::resume_unwind(payload),
+                }
+            })
+            .expect("failed to spawn simulated thread");
+        c.yield_point("thread.spawn");
+        JoinHandle {
+            inner,
+            sim: Some((c, id)),
+        }
+    }
+
+    pub fn sleep(duration: Duration) {
+        match controller() {
+            Some(c) => {
+                c.block_on("thread.sleep", &|| false, Some(duration));
+            }
+            None => std::thread::sleep(duration),
+        }
+    }
+}
+
+pub mod time {
+    //! `Instant` that follows the controller's clock.
+    use std::time::Duration;
+
+    #[derive(Clone, Copy, Debug)]
+    pub enum Instant {
+        Real(std::time::Instant),
+        Virtual(u64),
+    }
+
+    impl Instant {
+        pub fn now() -> Self {
+            match super::now_nanos() {
+                Some(now) => Instant::Virtual(now),
+                None => Instant::Real(std::time::Instant::now()),
+            }
+        }
+
+        pub fn elapsed(&self) -> Duration {
+            match self {
+                Instant::Real(start) => start.elapsed(),
+                Instant::Virtual(start) => {
+                    let now = super::now_nanos().unwrap_or(*start);
+                    Duration::from_nanos(now.saturating_sub(*start))
+                }
+            }
+        }
+    }
+}
